@@ -4024,6 +4024,13 @@ class IniFileStore(Store):
         Returns:
             The quoted value suitable for storage.
         """
+        if not isinstance(value, str):
+            # e.g. a bool passed to Stack.set(): ConfigObj stringifies it
+            try:
+                self._config_obj.list_values = True
+                return self._config_obj._quote(value)
+            finally:
+                self._config_obj.list_values = False
         if any(line.splitlines() not in ([], [line]) for line in value.split("\n")):
             # ConfigObj splits the file with str.splitlines(): a line boundary
             # character other than "\n" cannot be stored, quoted or not.
